@@ -31,7 +31,7 @@ func callArgParams(p *packages.Package, body ast.Node, lparen token.Pos, text st
 	}
 	var argTypes []types.Type
 	ft := p.TypesInfo.TypeOf(call.Fun)
-	if sig, ok := ft.(*types.Signature); ok && sig.Params() != nil {
+	if sig, ok := ft.(*types.Signature); ok {
 		off := 0
 		// method value calls: receiver is arg0 in SSA for static method calls
 		if sel, ok := call.Fun.(*ast.SelectorExpr); ok {
